@@ -80,6 +80,9 @@ def run():
     rep.obligations.extend(tabvc.run_family(_group, list(range(1, 231))))
     nz = tabvc.run_family(tabvc.normalizer_obligations, list(range(1, 231)))
     rep.obligations.extend(o for o in nz if o.id.split("[")[0] in ("nz.closed", "nz.perm-wf"))
+    # the table represents the whole Euclidean normalizer (proper part for Sohncke groups): otherwise two descriptions of one crystal that
+    # differ by an unlisted normalizer are ranked over different candidate sets
+    rep.obligations.extend(tabvc.run_family(tabvc.normalizer_complete_obligation, list(range(1, 231))))
     sections_parallel(rep, [("id", _id), ("getters", _getters), ("maps", _maps)])
     rep.unproved_conjuncts.append("C06 last clause (identical conventional cell for parameter-free structures) depends on which of several equally ranked transformations is first: not covered")
     return rep
@@ -189,6 +192,34 @@ def replay(ob):
     groups = ([w["sg"]] if "sg" in w else []) + [225, 221, 62, 194, 14, 2, 227, 136]
     rng = np.random.default_rng(5)
     fails = []
+    if w.get("missing") and "sg" in w:
+        # a normalizer that the table does not represent: the crystal and its image under it are the same crystal described twice
+        import itertools
+        from fractions import Fraction
+        sg = w["sg"]
+        L = _sym.letters_of(sg)[:8]
+        for Li, Lj in itertools.combinations(L, 2):
+            try:
+                at = tr.pinned_probe(sg, [(Li, 29, None), (Lj, 47, None)], npin=1)
+                if len(at) > 240:
+                    continue
+                a0 = tr.analyze(at)
+                if int(a0.get_space_group_number()) != sg:
+                    continue
+                ref = (a0.get_material_id(), sorted((s.wyckoff_letter, s.element, len(s.indices)) for s in a0.get_wyckoff_sets_conventional(False)))
+                for W, wv, _cnt in w["missing"]:
+                    W = np.array(W, dtype=float)
+                    t = np.array([float(Fraction(x)) for x in wv])
+                    sp = (at.get_scaled_positions() @ W.T + t) % 1.0
+                    v = Atoms(numbers=at.get_atomic_numbers(), scaled_positions=sp, cell=at.get_cell(), pbc=True)
+                    a = tr.analyze(v)
+                    got = (a.get_material_id(), sorted((s.wyckoff_letter, s.element, len(s.indices)) for s in a.get_wyckoff_sets_conventional(False)))
+                    if got != ref:
+                        fails.append({"sg": sg, "occupied": [Li, Lj], "presentation": "image under x -> W x + w, W=%s w=%s (maps the space group onto itself)" % (W.astype(int).tolist(), wv),
+                                      "reference": str(ref)[:300], "got": str(got)[:300]})
+                        return {"reproduced": True, "failing_inputs": fails}
+            except Exception as e:  # noqa
+                fails.append({"sg": sg, "observed": "%s: %s" % (type(e).__name__, str(e)[:200])})
     for sg in groups[:6]:
         L = _sym.letters_of(sg)
         for extra in ([(L[0], 29, None)], [(L[0], 29, None), (L[min(1, len(L) - 1)], 47, None)]):
